@@ -241,8 +241,8 @@ class ParticleReleaser(Iterator[pd.DataFrame]):
             index_col="release_time",
         )
 
-        # pandas 2.x has trouble reading time
-        if pd.__version__[0] == "2":
+        # pandas from version 2 has trouble reading time
+        if int(pd.__version__.split(".")[0]) >= 2:
             kwargs["date_format"] = "ISO8601"
         try:
             df = pd.read_csv(rls_file, **kwargs)
